@@ -5,9 +5,15 @@
  *
  * nthreads real pthreads run the bodies of c18_bodies.h on private instances under a cooperative scheduler that lets
  * exactly one of them run and decides, at every scheduling point, who runs next.  Scheduling points are injected without
- * touching the source: -finstrument-functions gives one point per library function entry and exit, and two wrapper
- * translation units (assemblyline.c / instr_parser.c included behind a self-referential macro) give one point per access
- * to the two global _Atomic index tables.  gran = "full" (all points) or "coarse" (function entries + table accesses).
+ * touching the source, by compiler instrumentation of the library's translation units:
+ *   -finstrument-functions   one point per library function entry and exit,
+ *   -fsanitize=thread        (compile only; the runtime is NOT linked, the __tsan_* entry points are defined below) one
+ *                            point per atomic operation and per plain load/store whose address lies in the writable global
+ *                            data of the program - i.e. at every access to memory that threads can share by name,
+ *   -Wl,--wrap               one point per mmap / munmap / mremap / pthread_once / mutex operation of the library.
+ * gran = "full" (all points), "coarse" (no function-exit points) or "access" (shared-memory accesses and the wrapped calls
+ * only: between two such operations a thread touches private memory only, so pre-empting it there changes nothing - the
+ * classical reduction to visible operations; this is what makes bounds 3 and 4 and the long bodies affordable).
  *
  * The explorer enumerates depth-first ALL schedules with at most k pre-emptions (a pre-emption = switching away from a
  * thread that could continue; the switch at a thread's end is free).  Deviations are (point number, target thread) pairs in
@@ -38,7 +44,8 @@
 #define MAXP 8192
 #define MAXDEV 4
 
-static int nthreads, variant, kmax, coarse;
+static int nthreads, variant, kmax, coarse, access_mode;
+static __thread int quiet; /* body-controlled: a stretch run as ONE step (c18_quiet) */
 static volatile int turn = -1;
 static __thread int self = -1;
 static __thread int inhook = 0;
@@ -86,7 +93,7 @@ static void hand_to(int t) {
 }
 
 void sched_point(void) {
-  if (self < 0 || inhook) return;
+  if (self < 0 || inhook || quiet) return;
   inhook = 1;
   long i = point_no++;
   if (i < MAXP) {
@@ -178,10 +185,23 @@ int __wrap_pthread_mutex_unlock(pthread_mutex_t *m) {
   return 0;
 }
 
-/* table access shim: see build (wrapper translation units) */
-void *sched_tbl(void *p) {
+void c18_quiet(int on) { quiet = on; }
+
+/* mapping calls of the library: visible operations (a buffer handed to two instances shows as a double munmap) */
+void *__real_mmap(void *, size_t, int, int, int, off_t);
+void *__wrap_mmap(void *a, size_t n, int p, int f, int fd, off_t o) {
   sched_point();
-  return p;
+  return __real_mmap(a, n, p, f, fd, o);
+}
+int __real_munmap(void *, size_t);
+int __wrap_munmap(void *a, size_t n) {
+  sched_point();
+  return __real_munmap(a, n);
+}
+void *__real_mremap(void *, size_t, size_t, int, ...);
+void *__wrap_mremap(void *a, size_t o, size_t n, int fl, ...) {
+  sched_point();
+  return __real_mremap(a, o, n, fl);
 }
 
 void __cyg_profile_func_enter(void *fn, void *site) __attribute__((no_instrument_function));
@@ -189,13 +209,61 @@ void __cyg_profile_func_exit(void *fn, void *site) __attribute__((no_instrument_
 void __cyg_profile_func_enter(void *fn, void *site) {
   (void)fn;
   (void)site;
-  sched_point();
+  if (!access_mode) sched_point();
 }
 void __cyg_profile_func_exit(void *fn, void *site) {
   (void)fn;
   (void)site;
-  if (!coarse) sched_point();
+  if (!coarse && !access_mode) sched_point();
 }
+
+/* ---- the ThreadSanitizer compile-time interface, implemented here instead of by libtsan ----------------------------------
+ * The library is compiled with -fsanitize=thread, which makes the compiler call __tsan_readN / __tsan_writeN before every
+ * load / store it cannot prove private and __tsan_atomicN_* instead of every atomic operation.  A load or store becomes a
+ * scheduling point when its address is in the program's writable global data; atomics always are. */
+extern char __data_start[], _end[];
+static inline void gpoint(const void *a) {
+  if ((const char *)a >= __data_start && (const char *)a < _end) sched_point();
+}
+#define TSAN_RW(n)                                   \
+  void __tsan_read##n(void *a) { gpoint(a); }        \
+  void __tsan_write##n(void *a) { gpoint(a); }       \
+  void __tsan_unaligned_read##n(void *a) { gpoint(a); } \
+  void __tsan_unaligned_write##n(void *a) { gpoint(a); }
+TSAN_RW(1) TSAN_RW(2) TSAN_RW(4) TSAN_RW(8) TSAN_RW(16)
+void __tsan_read_range(void *a, long n) { (void)n; gpoint(a); }
+void __tsan_write_range(void *a, long n) { (void)n; gpoint(a); }
+void __tsan_func_entry(void *pc) { (void)pc; }
+void __tsan_func_exit(void) {}
+void __tsan_init(void) {}
+void __tsan_vptr_update(void **p, void *v) { (void)p; (void)v; }
+void __tsan_vptr_read(void **p) { (void)p; }
+#define TSAN_ATOMIC(bits, T)                                                                                              \
+  T __tsan_atomic##bits##_load(const volatile T *a, int mo) { (void)mo; sched_point(); return __atomic_load_n(a, __ATOMIC_SEQ_CST); } \
+  void __tsan_atomic##bits##_store(volatile T *a, T v, int mo) { (void)mo; sched_point(); __atomic_store_n(a, v, __ATOMIC_SEQ_CST); } \
+  T __tsan_atomic##bits##_exchange(volatile T *a, T v, int mo) { (void)mo; sched_point(); return __atomic_exchange_n(a, v, __ATOMIC_SEQ_CST); } \
+  T __tsan_atomic##bits##_fetch_add(volatile T *a, T v, int mo) { (void)mo; sched_point(); return __atomic_fetch_add(a, v, __ATOMIC_SEQ_CST); } \
+  T __tsan_atomic##bits##_fetch_sub(volatile T *a, T v, int mo) { (void)mo; sched_point(); return __atomic_fetch_sub(a, v, __ATOMIC_SEQ_CST); } \
+  T __tsan_atomic##bits##_fetch_and(volatile T *a, T v, int mo) { (void)mo; sched_point(); return __atomic_fetch_and(a, v, __ATOMIC_SEQ_CST); } \
+  T __tsan_atomic##bits##_fetch_or(volatile T *a, T v, int mo) { (void)mo; sched_point(); return __atomic_fetch_or(a, v, __ATOMIC_SEQ_CST); } \
+  T __tsan_atomic##bits##_fetch_xor(volatile T *a, T v, int mo) { (void)mo; sched_point(); return __atomic_fetch_xor(a, v, __ATOMIC_SEQ_CST); } \
+  T __tsan_atomic##bits##_fetch_nand(volatile T *a, T v, int mo) { (void)mo; sched_point(); return __atomic_fetch_nand(a, v, __ATOMIC_SEQ_CST); } \
+  int __tsan_atomic##bits##_compare_exchange_strong(volatile T *a, T *c, T v, int mo, int fmo) {                          \
+    (void)mo; (void)fmo; sched_point();                                                                                   \
+    return __atomic_compare_exchange_n(a, c, v, 0, __ATOMIC_SEQ_CST, __ATOMIC_SEQ_CST);                                   \
+  }                                                                                                                       \
+  int __tsan_atomic##bits##_compare_exchange_weak(volatile T *a, T *c, T v, int mo, int fmo) {                            \
+    (void)mo; (void)fmo; sched_point();                                                                                   \
+    return __atomic_compare_exchange_n(a, c, v, 0, __ATOMIC_SEQ_CST, __ATOMIC_SEQ_CST);                                   \
+  }                                                                                                                       \
+  T __tsan_atomic##bits##_compare_exchange_val(volatile T *a, T c, T v, int mo, int fmo) {                                \
+    (void)mo; (void)fmo; sched_point();                                                                                   \
+    __atomic_compare_exchange_n(a, &c, v, 0, __ATOMIC_SEQ_CST, __ATOMIC_SEQ_CST);                                         \
+    return c;                                                                                                             \
+  }
+TSAN_ATOMIC(8, uint8_t) TSAN_ATOMIC(16, uint16_t) TSAN_ATOMIC(32, uint32_t) TSAN_ATOMIC(64, uint64_t)
+void __tsan_atomic_thread_fence(int mo) { (void)mo; sched_point(); __atomic_thread_fence(__ATOMIC_SEQ_CST); }
+void __tsan_atomic_signal_fence(int mo) { (void)mo; }
 
 static void *thread_main(void *arg) {
   int id = (int)(intptr_t)arg;
@@ -358,6 +426,7 @@ int main(int argc, char **argv) {
   shard = atol(argv[4]);
   nshards = atol(argv[5]);
   coarse = argc > 6 && !strcmp(argv[6], "coarse");
+  access_mode = argc > 6 && !strcmp(argv[6], "access");
   int replay = !strcmp(argv[3], "replay");
   if (replay) {
     /* sched <n> <variant> replay <p>t,<p>t,... [gran]  (schedule in argv[4]; '-' = no deviation) */
@@ -373,6 +442,7 @@ int main(int argc, char **argv) {
       q = *e == ',' ? e + 1 : e;
     }
     coarse = argc > 5 && !strcmp(argv[5], "coarse");
+    access_mode = argc > 5 && !strcmp(argv[5], "access");
     shard = 0;
     nshards = 1;
   }
